@@ -1,5 +1,7 @@
 import VlsModel.Gen.FnTrackerRestore
 import VlsModel.Gen.FnBackup
+import VlsModel.Gen.FnKvvPersist
+import VlsModel.Gen.FnPersistModel
 import VlsModel.Model.Backup
 import VlsModel.Lemmas.FnGen
 /-
@@ -182,4 +184,150 @@ example : ∃ c : Comp, (c.write 1 (some 2)).2 = Res.err ∧ (c.write 1 (some 2)
   ⟨⟨⟨fun _ => none, false, false⟩, ⟨fun _ => none, true, false⟩, false⟩, rfl, rfl, rfl⟩
 
 end Backup
+
+/-! ## `impl Persist for KVVPersister` (vls-persist/src/kvv.rs) and the entry conversions (model.rs), translated on every run
+
+Target lists `translate/fn_targets/KvvPersist.b1012.json`, `PersistModel.b1012.json`.  Externals (explicit parameters, the
+theorems hold for all of them): the store's `put` / `get` / `delete` (reached through `Deref`), the key makers
+`make_key` / `make_key2`, `PublicKey::serialize`, `ChannelId::as_slice`, `EnforcementState::new`, and the value format
+`F::ser_value` / `F::de_value` at each entry type (a declared normalisation names the instance: the trait function is
+generic).  What a `put` does to a later `get` is the store's contract (C16); what the format does is `ValueFormat`'s:
+both appear as hypotheses `hget`, `hde` below — the theorems say what the *persister code between them* keeps. -/
+section Kvv
+open VlsModel.Gen.FnKvvPersist
+
+variable {SelfT PublicKey ChannelId EnforcementState NodeState ChainTracker ValidatorFactory ChainTrackerListenerEntry : Type}
+  (sz : PublicKey → List Nat) (sl : ChannelId → List Nat) (mk : String → List Nat → String)
+  (mk2 : String → List Nat → List Nat → String)
+  (put : String → List Nat → Rs.M Unit) (get : String → Rs.M (Option (Nat × List Nat))) (del : String → Rs.M Unit)
+  (self : SelfT) (node_id : PublicKey)
+
+/-- the entry `update_channel` computes from a channel: every durable field of the channel, nothing defaulted -/
+def entryOfChannel (ch : Channel ChannelId EnforcementState) : ChannelEntry ChannelId EnforcementState :=
+  { channel_value_satoshis := ch.setup.channel_value_sat, channel_setup := some ch.setup, id := ch.id,
+    enforcement_state := ch.enforcement_state, blockheight := none }
+
+/-- **C11_fn_kvv_update_channel**: `update_channel` serialises exactly `entryOfChannel channel` — the channel's own
+    enforcement state (counters, commitment contents, points, secrets, closed flag all live there), its setup and its
+    permanent id — and puts it under the key made from the node id and the channel's *initial* id.  A fresh
+    enforcement state, a dropped id or another key changes the translated body and breaks this equation. -/
+theorem C11_fn_kvv_update_channel (ser : ChannelEntry ChannelId EnforcementState → Rs.M (List Nat))
+    (ch : Channel ChannelId EnforcementState) :
+    KVVPersister.update_channel sz sl mk2 ser put self node_id ch
+      = (ser (entryOfChannel ch) >>= fun v => put (mk2 "channel" (sz node_id) (sl ch.id0)) v) := rfl
+
+/-- **C11_fn_kvv_new_channel**: a stub is written under the same kind of key with its birth block height, no setup, no
+    permanent id and the enforcement state `EnforcementState::new(0)`. -/
+theorem C11_fn_kvv_new_channel (ser : ChannelEntry ChannelId EnforcementState → Rs.M (List Nat)) (esNew : Nat → EnforcementState)
+    (stub : ChannelStub ChannelId) :
+    KVVPersister.new_channel sz sl mk2 esNew ser put self node_id stub
+      = (ser { channel_value_satoshis := 0, channel_setup := none, id := none, enforcement_state := esNew 0,
+               blockheight := some stub.blockheight } >>= fun v => put (mk2 "channel" (sz node_id) (sl stub.id0)) v) := rfl
+
+/-- **C11_fn_kvv_get_channel**: `get_channel` reads the key made the same way, panics when there is no entry
+    (`expect("channel not found")`), decodes the value and converts it with `CoreChannelEntry::from`. -/
+theorem C11_fn_kvv_get_channel (de : List Nat → Rs.M (ChannelEntry ChannelId EnforcementState)) (cid : ChannelId) :
+    KVVPersister.get_channel sz sl mk2 get de self node_id cid
+      = (get (mk2 "channel" (sz node_id) (sl cid)) >>= fun o => Rs.unwrap o >>= fun vv => de vv.2 >>= fun e =>
+          pure (CoreChannelEntry.«from» e)) := rfl
+
+/-- **C11_fn_kvv_channel_roundtrip** (`restore ∘ persist = id` on the durable fields of a channel): let `update_channel`
+    have serialised its entry to `b`; if the store then answers the channel's key with `b` (any version) and the format
+    decodes `b` to what was encoded, `get_channel` under the channel's initial id returns the channel's enforcement
+    state, setup and permanent id unchanged, and `blockheight = none` (by which `new_from_persistence` tells a channel
+    from a stub). -/
+theorem C11_fn_kvv_channel_roundtrip (ser : ChannelEntry ChannelId EnforcementState → Rs.M (List Nat))
+    (de : List Nat → Rs.M (ChannelEntry ChannelId EnforcementState)) (ch : Channel ChannelId EnforcementState)
+    (b : List Nat) (ver : Nat) (hser : ser (entryOfChannel ch) = .ok b)
+    (hget : get (mk2 "channel" (sz node_id) (sl ch.id0)) = .ok (some (ver, b)))
+    (hde : ∀ e, ser e = .ok b → de b = .ok e) :
+    KVVPersister.update_channel sz sl mk2 ser put self node_id ch = put (mk2 "channel" (sz node_id) (sl ch.id0)) b ∧
+    KVVPersister.get_channel sz sl mk2 get de self node_id ch.id0
+      = .ok { channel_value_satoshis := ch.setup.channel_value_sat, channel_setup := some ch.setup, id := ch.id,
+              enforcement_state := ch.enforcement_state, blockheight := none } := by
+  constructor
+  · rw [C11_fn_kvv_update_channel, hser]; rfl
+  · rw [C11_fn_kvv_get_channel, hget]
+    simp [bind, Except.bind, Rs.unwrap, pure, Except.pure, hde _ hser, CoreChannelEntry.«from», entryOfChannel]
+
+/-- the same for a stub: it comes back as a stub (`blockheight = some _`, no setup) with the fresh enforcement state -/
+theorem C11_fn_kvv_stub_roundtrip (ser : ChannelEntry ChannelId EnforcementState → Rs.M (List Nat)) (esNew : Nat → EnforcementState)
+    (de : List Nat → Rs.M (ChannelEntry ChannelId EnforcementState)) (stub : ChannelStub ChannelId)
+    (b : List Nat) (ver : Nat)
+    (hser : ser { channel_value_satoshis := 0, channel_setup := none, id := none, enforcement_state := esNew 0,
+                  blockheight := some stub.blockheight } = .ok b)
+    (hget : get (mk2 "channel" (sz node_id) (sl stub.id0)) = .ok (some (ver, b)))
+    (hde : ∀ e, ser e = .ok b → de b = .ok e) :
+    KVVPersister.get_channel sz sl mk2 get de self node_id stub.id0
+      = .ok { channel_value_satoshis := 0, channel_setup := none, id := none, enforcement_state := esNew 0,
+              blockheight := some stub.blockheight } := by
+  rw [C11_fn_kvv_get_channel, hget]
+  simp [bind, Except.bind, Rs.unwrap, pure, Except.pure, hde _ hser, CoreChannelEntry.«from»]
+
+/-- **C11_fn_kvv_channel_entry_from**: the conversion of the stored entry into the core entry (model.rs) keeps all five
+    fields (also as translated on its own in area `PersistModel`). -/
+theorem C11_fn_kvv_channel_entry_from (e : ChannelEntry ChannelId EnforcementState)
+    {CS : Type} (e' : Gen.FnPersistModel.ChannelEntry CS ChannelId EnforcementState) :
+    (CoreChannelEntry.«from» e).channel_value_satoshis = e.channel_value_satoshis ∧
+    (CoreChannelEntry.«from» e).channel_setup = e.channel_setup ∧ (CoreChannelEntry.«from» e).id = e.id ∧
+    (CoreChannelEntry.«from» e).enforcement_state = e.enforcement_state ∧ (CoreChannelEntry.«from» e).blockheight = e.blockheight ∧
+    (Gen.FnPersistModel.CoreChannelEntry.«from» e').channel_value_satoshis = e'.channel_value_satoshis ∧
+    (Gen.FnPersistModel.CoreChannelEntry.«from» e').channel_setup = e'.channel_setup ∧
+    (Gen.FnPersistModel.CoreChannelEntry.«from» e').id = e'.id ∧
+    (Gen.FnPersistModel.CoreChannelEntry.«from» e').enforcement_state = e'.enforcement_state ∧
+    (Gen.FnPersistModel.CoreChannelEntry.«from» e').blockheight = e'.blockheight :=
+  ⟨rfl, rfl, rfl, rfl, rfl, rfl, rfl, rfl, rfl, rfl⟩
+
+/-- **C11_fn_kvv_delete_channel**: deletes exactly the key `update_channel` / `new_channel` write. -/
+theorem C11_fn_kvv_delete_channel (cid : ChannelId) :
+    KVVPersister.delete_channel sz sl mk2 del self node_id cid = del (mk2 "channel" (sz node_id) (sl cid)) := rfl
+
+/-- **C11_fn_kvv_allowlist**: `update_node_allowlist` stores the list it is given (as the one field of its entry) under the
+    node's allowlist key and `get_node_allowlist` returns the decoded entry's list: with the store and format hypotheses
+    as above, the allowlist read back is the allowlist written. -/
+theorem C11_fn_kvv_allowlist (ser : AllowlistItemEntry → Rs.M (List Nat)) (de : List Nat → Rs.M AllowlistItemEntry)
+    (al : List String) :
+    KVVPersister.update_node_allowlist sz mk ser put self node_id al
+      = (ser { allowlist := al } >>= fun v => put (mk "node/allowlist" (sz node_id)) v) ∧
+    (∀ b ver, ser { allowlist := al } = .ok b → get (mk "node/allowlist" (sz node_id)) = .ok (some (ver, b)) →
+      (∀ e, ser e = .ok b → de b = .ok e) →
+      KVVPersister.get_node_allowlist sz mk get de self node_id = .ok al) := by
+  refine ⟨rfl, ?_⟩
+  intro b ver hser hget hde
+  unfold KVVPersister.get_node_allowlist
+  simp [hget, bind, Except.bind, Rs.unwrap, pure, Except.pure, hde _ hser]
+
+/-- **C11_fn_kvv_update_node**: the node state is converted by `NodeStateEntry::from` (external here; its field dataflow is
+    `C11_gen_census_node`), serialised and put under the node's state key; `delete_node` removes the node entry and then
+    the state entry (the first error is returned). -/
+theorem C11_fn_kvv_update_node {NSE : Type} (conv : NodeState → NSE) (ser : NSE → Rs.M (List Nat)) (st : NodeState) :
+    KVVPersister.update_node sz mk conv ser put self node_id st
+      = (ser (conv st) >>= fun v => put (mk "node/state" (sz node_id)) v) ∧
+    KVVPersister.delete_node sz mk del self node_id
+      = (del (mk "node/entry" (sz node_id)) >>= fun _ => del (mk "node/state" (sz node_id))) := ⟨rfl, rfl⟩
+
+/-- **C11_fn_kvv_tracker**: `update_tracker` converts (`ChainTrackerEntry::from`, external; dataflow `C11_gen_census_tracker`),
+    serialises and puts under the node's tracker key; `new_tracker` is `update_tracker`; `get_tracker` reads that key
+    (panic when absent), decodes and returns `into_tracker` of the decoded entry (whose last stage is
+    `C11_fn_tracker_restore`): with the store and format hypotheses the tracker restored is `into_tracker (from tracker)`. -/
+theorem C11_fn_kvv_tracker {TE : Type} (conv : ChainTracker → TE) (ser : TE → Rs.M (List Nat)) (de : List Nat → Rs.M TE)
+    (into : TE → PublicKey → ValidatorFactory → ChainTracker × List ChainTrackerListenerEntry) (t : ChainTracker) (vf : ValidatorFactory) :
+    KVVPersister.update_tracker sz mk conv ser put self node_id t
+      = (ser (conv t) >>= fun v => put (mk "node/tracker" (sz node_id)) v) ∧
+    KVVPersister.new_tracker sz mk conv ser put self node_id t = KVVPersister.update_tracker sz mk conv ser put self node_id t ∧
+    (∀ b ver, ser (conv t) = .ok b → get (mk "node/tracker" (sz node_id)) = .ok (some (ver, b)) →
+      (∀ e, ser e = .ok b → de b = .ok e) →
+      KVVPersister.get_tracker sz mk get de into self node_id vf = .ok (into (conv t) node_id vf)) := by
+  refine ⟨rfl, rfl, ?_⟩
+  intro b ver hser hget hde
+  unfold KVVPersister.get_tracker
+  simp [hget, bind, Except.bind, Rs.unwrap, pure, Except.pure, hde _ hser]
+
+/-- non-vacuity of the round trip: identity format, a store that holds the one entry -/
+example : KVVPersister.get_channel (SelfT := Unit) (PublicKey := Nat) (ChannelId := Nat) (EnforcementState := Nat)
+    (fun n => [n]) (fun c => [c]) (fun p a b => p ++ toString a ++ toString b)
+    (fun _ => .ok (some (3, [42]))) (fun _ => .ok (entryOfChannel ⟨77, ⟨1000⟩, 5, some 6⟩)) () 1 5
+    = .ok { channel_value_satoshis := 1000, channel_setup := some ⟨1000⟩, id := some 6, enforcement_state := 77, blockheight := none } := rfl
+
+end Kvv
 end VlsModel.Props.C11Fn
